@@ -32,21 +32,21 @@ SHAPES = [
     ("step", [[1, 1]], False, Q, dict(params=dict(new=[1, 1], cs=True), budget=600, shard=6)),
     ("step", [[0, 0], [0, 0]], False, Q, dict(params=dict(new=[0, 0], cs=True))),
     ("step", [[0, 0], [0, 0]], False, Q, dict(params=dict(new=[1, 1], cs=True), budget=600, shard=7)),
-    ("step", [[0, 0]], False, Q, dict(params=dict(new=[1, 1], cs=False), budget=600, shard=7)),
-    ("step", [[1, 1]], False, Q, dict(params=dict(new=[0, 0], cs=False), budget=600, shard=6)),
+    ("step", [[0, 0]], False, Q, dict(params=dict(new=[0, 0], cs=False), budget=600)),
+    ("step", [[0, 0]], False, T, dict(params=dict(new=[1, 1], cs=False), budget=1800, shard=7)),
+    ("step", [[1, 1]], False, T, dict(params=dict(new=[0, 0], cs=False), budget=1800, shard=6)),
     ("addprefix", [[1, 0]], False, Q, dict(params=dict(new=[1, 1], cs=True), budget=600, shard=6)),
     ("queries", [[0, 0]], False, Q, dict(params=dict(new=[0, 1], cs=True), budget=900, shard=7)),
     ("queries", [[1, 0]], False, T, dict(params=dict(new=[1, 0], cs=True), budget=3000, shard=9)),
     ("step", [[1, 0], [0, 0]], False, Q, dict(params=dict(new=[0, 0], cs=False), budget=900, shard=7)),
-    ("queries", [[0, 1], [0, 0]], False, T, dict(params=dict(new=[1, 1], cs=True), budget=3000, shard=9)),
     ("step", [[1, 1], [0, 0]], False, T, dict(params=dict(new=[1, 1], cs=True), budget=2400, shard=8)),
     ("step", [[0, 0]] * 3, False, T, dict(params=dict(new=[1, 1], cs=True), budget=2400, shard=8)),
     ("step", [[1, 1]], False, T, dict(params=dict(new=[2, 0], cs=True), budget=1800, shard=6)),
     ("step", [[1, 1]], False, T, dict(params=dict(new=[0, 2], cs=True), budget=1800, shard=6)),
-    ("step", [[1, 1]], False, T, dict(params=dict(new=[1, 1], cs=False), budget=3000, shard=12)),
-    ("step", [[0, 0], [0, 0]], False, T, dict(params=dict(new=[1, 1], cs=False), budget=2400, shard=8)),
     ("pattern", [[0, 0]], False, Q, dict(params=dict(new=[0, 0], cs=True))),
     ("history2", [[0, 0]], False, T, dict(params=dict(new=[0, 0], cs=True), budget=2400, shard=8)),
+    ("queries", [[0, 0], [0, 0]], False, T, dict(params=dict(new=[0, 0], cs=True), budget=3000, shard=9)),
+    ("step", [[1, 0]], False, T, dict(params=dict(new=[1, 0], cs=False), budget=2400, shard=8)),
     ("history2", [], False, T, dict(params=dict(new=[1, 1], cs=True), budget=2400, shard=8)),
 ]
 
